@@ -473,7 +473,34 @@ def index(c):
         c.require_ge(ln - i - 1, "index:elem", "element index < len")
         rt = c.ret_ty()
         et = c.fr.body.ty(rt["to"]) if rt.get("k") == "ref" else rt
-        ev = c.it.element_value(c.st, c.deref(c.args[0]), i, et)
+        sv0 = c.deref(c.args[0])
+        if c.it.track_content and isinstance(sv0, Seq) and int_range(et) == (0, 255):
+            from absint.models_content import container_of, cell_view_id, patch_container
+            cur = None
+            w_ = sv0.content()
+            if src_atom(w_) and not str(w_[0]).startswith("@"):
+                # a byte of an identified content: one variable per (content, offset)
+                off_ = w_[1] + i
+                nm_ = "rd8@%s+%r" % (w_[0], c.st.sys.reduce(off_))
+                cur = Num(Lin.var(nm_))
+                c.st.sys.add_range(cur.e, 0, 255)
+                c.it.purefun[nm_] = set(off_.t)
+                c.it.contents.setdefault("bytes", {})[nm_] = (w_[0], off_)
+            if re.search(r"IndexMut<", c.name):
+                got = container_of(c, c.args[0]) if isinstance(c.args[0], Ref) else None
+                if got is not None and got[2].view is None:
+                    # `v[i] = x` on an owned byte container: the byte written is whatever the element cell holds afterwards
+                    cell = "wb:%s/%d.%d" % (c.fr.id, c.bb, c.part)
+                    c.st.cells[cell] = cur if cur is not None else TOP
+                    patch_container(c.it, c.st, (cell_view_id(c.it, got[0], got[1]), Lin.const(0)), i, i + 1, ("src", ("cellbyte", cell)))
+                    return [(c.st, Ref(cell))]
+            elif cur is not None:
+                if rt.get("k") == "ref":
+                    cell = "%s/%d.%d:elem" % (c.fr.id, c.bb, c.part)
+                    c.st.cells[cell] = cur
+                    return [(c.st, Ref(cell))]
+                return [(c.st, cur)]
+        ev = c.it.element_value(c.st, sv0, i, et)
         if ev is not None:
             if rt.get("k") == "ref":
                 cell = "%s/%d.%d:elem" % (c.fr.id, c.bb, c.part)
@@ -661,11 +688,13 @@ def std_iter_next(c):
         # an explicit list of elements: handed out one by one, in order
         idx = sorted(v.items.f)
         if not idx:
+            c.st.cells["ghost:listed"] = Num(Lin.const(0))
             return [(c.st, none)]
         rest = Iter(Lin.const(len(idx) - 1), False, v.kind, None, Struct({i: v.items.f[i] for i in idx[1:]}, tag="elems"))
         c.it.store(c.st, c.args[0].cell, c.args[0].path, rest)
         from absint.interp import event
         event(c.st, "next", idx[0])
+        c.st.cells["ghost:listed"] = Num(Lin.const(1))
         return [(c.st, Enum(OPTION, {1: Struct({0: v.items.f[idx[0]]})}))]
     if isinstance(v, Iter) and is_listed(v.items):
         v = Iter(v.len, v.enumerated, v.kind, v.chunk, summ(v.items), v.maps)
